@@ -29,7 +29,9 @@ type TierCfg struct {
 	Skip         bool           `json:"skip"`
 	FeasMs       int            `json:"feas_ms"`
 	AssertMs     int            `json:"assert_ms"`
+	GenericFork  bool           `json:"generic_fork"`
 	AbstractURem bool           `json:"abstract_urem"`
+	AbstractDiv  bool           `json:"abstract_div"` // over-approximate symbolic/symbolic division (exact re-check on sat)
 	SolverOpts   []string       `json:"solver_options"` // extra SMT-LIB commands sent to the solver at start
 	NoLift       bool           `json:"no_lift"`        // keep Int comparisons in the Int theory (pair with z3's int-blasting bv solver)
 }
@@ -292,7 +294,7 @@ func runHarness(L *Loaded, o RunOpts, h *HarnessCfg, fn *ssa.Function) (*harness
 	t := h.cur
 	smt.NoLift = t.NoLift
 	cfg := &Config{Unwind: t.Unwind, MaxSteps: t.MaxSteps, FeasTimeoutMs: t.FeasMs, AssertTimeout: t.AssertMs,
-		MaxPaths: t.MaxPaths, MapOrder: t.MapOrder, Verbose: o.Verbose}
+		MaxPaths: t.MaxPaths, MapOrder: t.MapOrder, Verbose: o.Verbose, GenericFork: t.GenericFork}
 	if cfg.Unwind == 0 {
 		cfg.Unwind = 8
 	}
